@@ -190,6 +190,19 @@ CLAIMED = {
         ref='DESIGN.md §6 C11', note='partial: the general theorem read(walStr e) = e for all readable e is proved on the reduced grammar of the prototype (notes/prototypes/lean/RT.lean) only; on the full grammar the '
              'string and numeral tokens are proved, the rest is by correspondence. ~s with an operator-named s keeps the symbol (long form reads the operator): outside the quantifier.',
         technique='Lean 4 proof (token-level round trip for strings and numerals) + printer/reader correspondence and round-trip oracle'),
+    'C20': dict(
+        text='Theorems over the model of wawk/ast_defs.py and the operator constructors of TreeToWal: emit_shape / emit_begin_first_end_last / '
+             'emit_no_patterns (pre-definitions and BEGIN actions first, at most one whenever loop, END actions last, nothing else), '
+             'main_loop_in_source_order / pattern_order (k-th when = k-th pattern statement), and_runs_iff_all (for neutral conditions (&& c1..cn) '
+             'is true exactly when all are truthy), chainl_value (left-to-right value of an operator chain), transpile_bin / transpile_chain_head '
+             '(binary nodes, no re-association). Correspondence: generated WAWK programs: AST.emit vs the Lean emit, then every emitted form through '
+             'the model evaluator vs Wal.eval (value, printed text, final state). Oracle: stdout of the emitted program vs a direct AWK-style '
+             'reference evaluation of the generated tree; wawk -o text read back vs the emitted forms; sampled runs of the real wawk / wal command '
+             'line tools (direct execution vs -o then wal).',
+        ref='DESIGN.md §6 C20', note='partial: the Earley parser (text -> tree) is not modelled in Lean; that it yields the reference reading is decided by the oracle and '
+             'correspondence over generated programs. Comparisons and ! are written parenthesised (their binding relative to the other operators is not stated by the property); '
+             'integer-literal array keys (ambiguous with bit selection) and division are outside the generated fragment.',
+        technique='Lean 4 proof (shape of the emitted program, && semantics, left-fold value of chains) + emit/evaluator correspondence + reference-evaluation oracle'),
 }
 
 REASONS_PENDING = 'check under construction in this round (DESIGN.md §13 build order); not a claim of inapplicability'
